@@ -96,8 +96,8 @@ def run_J1(ctx, case):
         frame0 = {r: m.gpr[r] for r in FRAME_REGS}
         try:
             r = m.run(BASE, stop={BASE + n}, max_steps=64)
-        except Undecodable as e:
-            q.n += 1; q.sat += 1; q.failed.append((tag + ': emitted bytes do not decode: %s [%s]' % (e, ' '.join('%02x' % b if is_c(b) else '??' for b in code)), {})); return
+        except Undecodable as e:      # limitation of the x86 model, not a property violation: the job ends INCONCLUSIVE
+            raise Exception('x86 model cannot decode the emitted bytes (%s) [%s]' % (e, ' '.join('%02x' % b if is_c(b) else '??' for b in code)))
         except (Fault, OOB) as e:
             q.n += 1; q.sat += 1; q.failed.append((tag + ': emitted code faults: %s [%s]' % (e, ' '.join('%02x' % b if is_c(b) else '??' for b in code)), {})); return
         pc = fk['pc']; npaths[0] += 1
